@@ -1125,6 +1125,11 @@ func (c *Ctx) ruleAnnotationUseOrReject() {
 				continue
 			}
 			fn = c.P.LookupFunc(e[0], e[1])
+			if fn == nil {
+				// the collector was renamed, inlined or split: any function that branches on this kind (mentions its
+				// constant), or a direct caller of such a function, through which the annotation is used or rejected
+				fn = c.consumerByKind(kind)
+			}
 		} else {
 			// dispatch table: find the registered handler for this kind
 			fn = c.dispatchHandler(kind)
@@ -1141,6 +1146,53 @@ func (c *Ctx) ruleAnnotationUseOrReject() {
 			r.Bad("C03-ANNOTATION-USE-OR-REJECT", "kind "+kind, "the handler "+prog.FuncName(fn)+" neither stores the annotation nor rejects it: a forbidden annotation is silently dropped", c.pos(fn.Pos()))
 		}
 	}
+}
+
+// consumerByKind: a library function outside package directive that mentions the Enumeration constant of the kind (or
+// calls, directly, a function that does) and that uses or rejects the annotation of a directive it handles.
+func (c *Ctx) consumerByKind(kind string) *types.Func {
+	mentions := map[*types.Func]bool{}
+	var fns []*Fn
+	for _, f := range c.libFns() {
+		if f.Pkg.Types.Name() == "directive" {
+			continue
+		}
+		fns = append(fns, f)
+		ast.Inspect(f.Decl.Body, func(n ast.Node) bool {
+			if e, ok := n.(ast.Expr); ok {
+				if k := constObj(f.Pkg, e); k != nil && k.Name() == kind && namedType(k.Type()) == prog.ModulePath+"/directive.Enumeration" {
+					mentions[f.Obj] = true
+				}
+			}
+			return true
+		})
+	}
+	var cands []*Fn
+	for _, f := range fns {
+		if mentions[f.Obj] {
+			cands = append(cands, f)
+			continue
+		}
+		calls := false
+		ast.Inspect(f.Decl.Body, func(n ast.Node) bool {
+			if call, ok := n.(*ast.CallExpr); ok {
+				if cal := callee(f.Pkg, call); cal != nil && mentions[cal.Origin()] {
+					calls = true
+				}
+			}
+			return true
+		})
+		if calls {
+			cands = append(cands, f)
+		}
+	}
+	sort.Slice(cands, func(i, j int) bool { return cands[i].Name() < cands[j].Name() })
+	for _, f := range cands {
+		if c.usesOrRejectsAnnotation(f.Obj, 3, map[*types.Func]bool{}) {
+			return f.Obj
+		}
+	}
+	return nil
 }
 
 // dispatchTable reads the handler table: the map literals (and indexed assignments) of package core whose type is the
